@@ -150,6 +150,12 @@ fn main() {
         if rng.chance(1, 2) {
             sys = with_contradictions(&mut rng, sys);
         }
+        if i % 9 == 8 {
+            sys = gen_disparity(&mut rng);
+        } else if i % 4 == 3 {
+            let b = gen_planted(&mut rng, 8, 1e-2, &SHAPES);
+            sys = with_mild_conflicts(&mut rng, b);
+        }
         if rng.chance(1, 8) {
             // a request on a missing variable somewhere
             let n = sys.guesses.len() as u32;
